@@ -130,7 +130,7 @@ package referenceserver
 
 //@ func checkCodec
 //@   requires wfFeedback(feedback) && req != nil && req.URL != nil && req.Body != nil
-//@   modifies fbCount
+//@   modifies fbCount, []byte, lastReadN, lastReadErr, lastReadArr
 //@   ensures @post req.Method != "GET" && (expected == 1 || expected == 2) && hdrVal(req.Header, "Content-Type") == "application/grpc" ==>
 //@       (fbCount[feedback] == old(fbCount[feedback])) == (expected == 1 && !hdrDup(req.Header, "Content-Type"))
 //@   ensures @invalid expected != 1 && expected != 2 ==> fbCount[feedback] > old(fbCount[feedback])
